@@ -100,6 +100,7 @@ type Case struct {
 	HandlerNodes  []int        `json:"handler_nodes,omitempty"` // one more handler each, designated to this top-level lambda node (WithCallbacks(h).DesignateNode)
 	Read          int          `json:"read"`           // -1: read the output to EOF ; k >= 0: read k chunks, then Close
 	CloseAfterEOF bool         `json:"close_after_eof,omitempty"`
+	Storm         *StormSpec   `json:"storm,omitempty"` // a concurrent close storm on the copies of one stream precedes the run (storm.go)
 }
 
 func nodeName(i int) string {
